@@ -194,8 +194,36 @@ package testing
 //@   loop 0 invariant forall j int :: i < j && j < old(len(t.teardownStack)) ==> Gcalled[j] == old(Gcalled[j]) + 1
 //@   loop 0 invariant forall j int :: (j <= i || j >= old(len(t.teardownStack))) ==> Gcalled[j] == old(Gcalled[j])
 //@   loop 0 invariant t.failed == old(t.failed) && (old(t.teardownFailed) ==> t.teardownFailed)
-//@   ensures [tearing] t.tearingDown
+//@   ensures [tearing] t.tearingDown && wfT(t)
 //@   ensures [each-once] forall j int :: 0 <= j && j < old(len(t.teardownStack)) ==> Gcalled[j] == old(Gcalled[j]) + 1
 //@   ensures [only-those] forall j int :: (j < 0 || j >= old(len(t.teardownStack))) ==> Gcalled[j] == old(Gcalled[j])
 //@   ensures [lifo] GlastCalled == 0 || old(len(t.teardownStack)) == 0
 //@   ensures [body-flag-kept] t.failed == old(t.failed) && (old(t.teardownFailed) ==> t.teardownFailed)
+//@
+//@ // ---- construction of handles (C04: every worker owns a fresh handle)
+//@ fnspec tOption(t *T)
+//@   modifies t.logger, t.logrusLogger, t.Iteration
+//@
+//@ func NewTWithOptions
+//@   props C04 C06 C07
+//@   requires forall j int :: 0 <= j && j < len(options) ==> options[j] != nil
+//@   dyncall options : tOption
+//@   loop 0 invariant -1 <= rangeindex && rangeindex < len(options) && wfT(t) && !t.failed && !t.teardownFailed && !t.tearingDown && len(t.teardownStack) == 0 && t.Scenario == scenarioName
+//@   ensures [fresh] fresh(result.0) && wfT(result.0)
+//@   ensures [clean] !result.0.failed && !result.0.teardownFailed && !result.0.tearingDown && len(result.0.teardownStack) == 0 && result.0.Scenario == scenarioName
+//@   ensures [teardown] isBound(result.1, result.0, "teardown")
+//@
+//@ func WithLogger
+//@   props C04
+//@   modifies nothing
+//@   ensures result != nil
+//@
+//@ func WithLogrusLogger
+//@   props C04
+//@   modifies nothing
+//@   ensures result != nil
+//@
+//@ func WithIteration
+//@   props C04
+//@   modifies nothing
+//@   ensures result != nil
